@@ -1174,6 +1174,7 @@ static void resolve_frame(vf::CrashInfo& ci) {
 		while ((r = fread(buf, 1, sizeof buf, p)) > 0) out.append(buf, r);
 		pclose(p);
 	}
+	if (g_verbose) fprintf(stderr, "SYMBOLIZE %s\n%s\n", cmd.c_str(), out.c_str());
 	// output: per address a sequence of "function\nfile:line:col" pairs, blank line between addresses
 	std::istringstream os(out);
 	std::string fn, loc, found;
@@ -1230,6 +1231,7 @@ static std::string crash_violation(vf::CrashInfo ci, const std::string& inflight
 	std::string head = ci.text.substr(0, ci.text.find("    #"));
 	if (head.size() > 400) head.resize(400);
 	std::string loc = g_frame_loc.count(ci.frame) ? g_frame_loc[ci.frame] : "";
+	if (loc.size() > 4 && loc.compare(loc.size() - 4, 4, ":0:0") == 0) loc.resize(loc.size() - 4); // no line information for sanitizer check code
 	parent.violation(key,
 					 vf::strf("%s in %s (%s) while converting %s (leg %d of %s, options %s); report: %s", ci.cls.c_str(), ci.frame.c_str(), loc.c_str(), s.id().c_str(),
 							  leg, toSSE1 ? "LE->SE->LE" : "SE->LE->SE", o.json().dump().c_str(), head.c_str()),
@@ -1355,6 +1357,14 @@ int main(int argc, char** argv) {
 						  thorough ? "all" : "<= 64 KiB", thorough ? "none, pair, pair+taken suffix, pair under child, pair under grandchild" : "none, pair, pair+taken suffix, pair under grandchild",
 						  thorough ? "4v/2t, 5v/3t/5 bones, 6v/4t/2 partitions" : "4v/2t, 6v/4t/2 partitions",
 						  thorough ? "all 32" : "8 (calcBounds = fixBSXFlags = fixShaderFlags)"));
+	top.note("headParts = true is generated only for models in which every reachable shape may legitimately be a dynamic head part "
+			 "(LE: skinned with skin data and partition, or segmented; SE: BSDynamicTriShape); the option is documented as 'use ONLY for head parts'");
+	top.note("dropping an all-white vertex colour set (and adding an all-white one) counts as colour-preserving: absent colours mean white");
+	top.note("shader comparison: masked payload (references, string indices, flags, lighting type neutralised) must be identical; flags, type and texture "
+			 "paths must equal the input after applying the documented effects of removeParallax, fixShaderFlags and headParts (SE->LE clears the packed-tangent flag)");
+	top.note("weights are compared source by source with tolerance 1e-3 (half-float rounding plus renormalisation); an input whose sources disagree or "
+			 "where only one source carries weights is counted in source_inconsistent and checked only for the source that survives");
+	top.note("sanitizer reports are symbolised by the harness (it re-executes itself once with symbolize=0), one symbolizer call per distinct fault site");
 	top.set_info("option_sets", thorough ? 32 : 8);
 	top.set_info("scenarios_enumerated", (long long) g_tasks.size());
 	top.set_info("units_total", (long long) g_units.size());
